@@ -4,4 +4,5 @@ CONSTANTS
   UseZip = FALSE
 SPECIFICATION Spec
 INVARIANT Attribution
+INVARIANT OtherWriteBacks
 CHECK_DEADLOCK FALSE
